@@ -95,7 +95,10 @@ def lex(text):
             continue
         m = _NUMBER.match(text, i)
         if m:
-            toks.append(Tok("NUMBER", float(m.group(0)), m.group(0), i, line, col))
+            v = float(m.group(0))
+            if v in (float("inf"), float("-inf")):  # no finite number: a lexical error of the text, at the literal
+                raise LexFailure(i, line, col, "number out of range")
+            toks.append(Tok("NUMBER", v, m.group(0), i, line, col))
             i = m.end()
             continue
         m = _INT.match(text, i)
